@@ -16,6 +16,13 @@
 //   thread 0: start ;
 //   thread t+1: complete_<ch> <t> <arg> ;
 //   endcase
+//   case <id> kind=schedule_from|let_value|let_error seed=<n> strat=<..> [life=1] [sthrow=1] [fthrow=1]
+//                                (C03x: life cycle of the schedule_from / let_value / let_error operation state;
+//                                 let kinds: sched_<ch> completes the successor; sthrow: storing the value throws,
+//                                 fthrow: the user function throws)
+//   thread a: start ;   thread b: complete_<ch> 0 <arg> ;   thread c: sched_<ch> <arg> ;   (ops may share threads;
+//   a completion requested before its operation state was started is delivered inline inside that start)
+//   endcase
 // Channels: 0 = value, 1 = stopped, 2 = error.
 // Harness events: inv.complete idx arg / inv.consume k 0 / inv.start 0 0 / ret,
 //   fire.value|fire.stopped|fire.error idx arg, rcv.value k v / rcv.error k code / rcv.stopped k 0.
@@ -61,6 +68,48 @@ static long long code_of(std::exception_ptr const& ep)
     }
 }
 
+// ---------------------------------------------------------------- COUNTED VALUE (C03x)
+// The value type of the schedule_from cases: a copy / move construction is the adaptor storing the value in its
+// operation state (`ts.emplace`): preemption point + line `sf.store`; the destruction of such a stored instance
+// is the line `sf.tsdtor`.  Temporaries made from an int (the leaf's argument) are silent.
+static bool g_store_throws = false;    // let kinds, case attribute sthrow=1: storing the value throws verif_exc{41}
+static int store_point(int v, int copy)
+{
+    if (g_store_throws)
+    {
+        verif::pt("lt.storethrow", nullptr, 41, 0);
+        throw verif_exc{41};
+    }
+    verif::pt("sf.store", nullptr, v, copy);
+    return v;
+}
+struct cval
+{
+    int v;
+    bool stored;
+    explicit cval(int v_) noexcept
+      : v(v_)
+      , stored(false)
+    {
+    }
+    cval(cval&& o)
+      : v(store_point(o.v, 0))
+      , stored(true)
+    {
+    }
+    cval(cval const& o)
+      : v(store_point(o.v, 1))
+      , stored(true)
+    {
+    }
+    cval& operator=(cval&&) = delete;
+    cval& operator=(cval const&) = delete;
+    ~cval()
+    {
+        if (stored) verif::nt("sf.tsdtor", nullptr, v, 0);
+    }
+};
+
 // ---------------------------------------------------------------- MANUAL LEAF
 struct trigger
 {
@@ -102,6 +151,7 @@ struct manual_op
             if (ch == 0)
             {
                 if constexpr (std::is_same_v<Val, int>) ex::set_value(std::move(rr), int(arg));
+                else if constexpr (std::is_same_v<Val, cval>) ex::set_value(std::move(rr), cval(int(arg)));
                 else ex::set_value(std::move(rr), std::tuple<int, int>(int(arg), int(arg) + 100));
             }
             else if (ch == 2)
@@ -139,7 +189,12 @@ struct manual_sender
 template <class T>
 static void enc_add(long long& enc, long long& mul, T const& v)
 {
-    if constexpr (std::is_same_v<std::decay_t<T>, std::vector<int>>)
+    if constexpr (std::is_same_v<std::decay_t<T>, cval>)
+    {
+        enc += (long long) v.v * mul;
+        mul *= 16;
+    }
+    else if constexpr (std::is_same_v<std::decay_t<T>, std::vector<int>>)
     {
         for (int x : v)
         {
@@ -177,6 +232,119 @@ struct term_recv
     }
     void set_stopped() && noexcept { nt("rcv.stopped", nullptr, k, 0); }
     constexpr ex::empty_env get_env() const& noexcept { return {}; }
+};
+
+// ---------------------------------------------------------------- MANUAL SCHEDULER (C03x)
+// `schedule(manual_scheduler)` is a sender whose operation state completes when the case's `sched_<ch>` op fires
+// the trigger: on the thread of that op (= the target context), or inline inside `start()` if the op came first.
+// Construction (`sf.conn`), `start()` (`sf.sstart`) and the point after arming (`sf.armed`: the completion may now
+// run on another thread while this one is still inside `start()`) are preemption points; the destructor logs
+// `sf.sopdtor`.  After arming `start()` does not touch its operation state again (the completion may destroy it).
+template <class R, bool Succ = false>
+struct sched_op
+{
+    std::decay_t<R> r;
+    trigger* t;
+    sched_op(sched_op&&) = delete;
+    sched_op& operator=(sched_op&&) = delete;
+    template <class R_>
+    sched_op(R_&& r_, trigger* t_)
+      : r(std::forward<R_>(r_))
+      , t(t_)
+    {
+        pt(Succ ? "lt.conn" : "sf.conn", nullptr, 0, 0);
+    }
+    ~sched_op() { nt(Succ ? "lt.sopdtor" : "sf.sopdtor", nullptr, 0, 0); }
+    void start() & noexcept
+    {
+        pt(Succ ? "lt.sstart" : "sf.sstart", nullptr, 0, 0);
+        trigger* tt = t;
+        tt->fire_fn = [this](int ch, long long arg) {
+            auto rr = std::move(r);    // receiver on the stack before it is completed
+            if (ch == 0)
+            {
+                if constexpr (Succ) ex::set_value(std::move(rr), int(arg));
+                else
+                    ex::set_value(std::move(rr));
+            }
+            else if (ch == 2)
+                ex::set_error(std::move(rr), std::make_exception_ptr(verif_exc{arg}));
+            else
+                ex::set_stopped(std::move(rr));
+        };
+        tt->armed = true;
+        if (tt->has_pending) fire(tt, tt->pch, tt->parg);
+        else
+            pt("sf.armed", nullptr, 0, 0);
+    }
+};
+struct manual_scheduler
+{
+    trigger* t;
+    struct sender
+    {
+        PIKA_STDEXEC_SENDER_CONCEPT
+        template <template <class...> class Tuple, template <class...> class Variant>
+        using value_types = Variant<Tuple<>>;
+        template <template <class...> class Variant>
+        using error_types = Variant<std::exception_ptr>;
+        static constexpr bool sends_done = true;
+        trigger* t;
+        template <class R>
+        sched_op<R> connect(R&& r) const
+        {
+            return {std::forward<R>(r), t};
+        }
+        struct env
+        {
+            trigger* t;
+            friend manual_scheduler tag_invoke(ex::get_completion_scheduler_t<ex::set_value_t>, env const& e) noexcept
+            {
+                return {e.t};
+            }
+        };
+        env get_env() const& noexcept { return {t}; }
+    };
+    friend sender tag_invoke(ex::schedule_t, manual_scheduler s) { return {s.t}; }
+    bool operator==(manual_scheduler const& o) const noexcept { return t == o.t; }
+    bool operator!=(manual_scheduler const& o) const noexcept { return !(*this == o); }
+};
+
+// ---------------------------------------------------------------- SUCCESSOR OF let_value / let_error (C03x)
+// The sender the user function returns: its operation state is a `sched_op<R, true>` (lines `lt.conn`, `lt.sstart`,
+// `sf.armed`, `lt.sopdtor`), completed by the case's `sched_<ch> <arg>` op with the value `arg` / an error / stopped.
+struct succ_sender
+{
+    PIKA_STDEXEC_SENDER_CONCEPT
+    template <template <class...> class Tuple, template <class...> class Variant>
+    using value_types = Variant<Tuple<int>>;
+    template <template <class...> class Variant>
+    using error_types = Variant<std::exception_ptr>;
+    static constexpr bool sends_done = true;
+    trigger* t;
+    template <class R>
+    sched_op<R, true> connect(R&& r) const
+    {
+        return {std::forward<R>(r), t};
+    }
+};
+// the user function: reads the stored value THROUGH THE REFERENCE it is given (`lt.call v`), may throw verif_exc{42}
+struct let_fn
+{
+    trigger* t;
+    bool throws;
+    succ_sender operator()(cval& v) const
+    {
+        pt(throws ? "lt.callthrow" : "lt.call", nullptr, v.v, 42);
+        if (throws) throw verif_exc{42};
+        return {t};
+    }
+    succ_sender operator()(std::exception_ptr& ep) const
+    {
+        pt(throws ? "lt.callthrow" : "lt.call", nullptr, code_of(ep), 42);
+        if (throws) throw verif_exc{42};
+        return {t};
+    }
 };
 
 // ---------------------------------------------------------------- ABORT HANDLER
@@ -368,6 +536,32 @@ static void do_complete(trigger* t, int ch, long long arg)
     nt("ret", nullptr, 0, 0);
 }
 
+// schedule_from cases (C03x): a request that arrives before its operation state was started only marks the
+// trigger (`ret.pending`: not a model event); otherwise the completion runs on this thread
+static void do_complete_sf(trigger* t, int ch, long long arg)
+{
+    pt(t->idx == 0 ? "inv.complete" : "inv.sched", nullptr, t->idx, arg);
+    if (t->armed)
+    {
+        fire(t, ch, arg);
+        nt("ret", nullptr, 0, 0);
+    }
+    else
+    {
+        t->has_pending = true;
+        t->pch = ch;
+        t->parg = arg;
+        nt("ret.pending", nullptr, 0, 0);
+    }
+}
+static int sched_channel_of(std::string const& name)    // sched_<ch>
+{
+    if (name == "sched_value") return 0;
+    if (name == "sched_stopped") return 1;
+    if (name == "sched_error") return 2;
+    return -1;
+}
+
 using consume_fn = std::function<void(int k)>;    // connect + start for consumer k
 
 template <std::size_t... Is>
@@ -427,7 +621,54 @@ static void run_one(case_t const& c)
     consume_fn consume, discard;
     std::function<void()> start_wa;
 
-    if (kind == "when_all_vector")
+    if (kind == "let_value" || kind == "let_error")
+    {
+        // trg[0]: the predecessor (manual leaf sending a counted value), trg[1]: the successor the user function returns
+        trg.push_back(new trigger{0});
+        trg.push_back(new trigger{1});
+        g_store_throws = c.geti("sthrow", 0) != 0;
+        let_fn f{trg[1], c.geti("fthrow", 0) != 0};
+        bool const life = c.geti("life", 0) != 0;
+        if (life) install_segv_handler();
+        auto mk = [&](auto snd) {
+            using S = decltype(snd);
+            if (life)
+            {
+                auto* h = new self_deleting_op<S>(std::move(snd), 0);
+                start_wa = [h] { ex::start(h->op); };
+            }
+            else
+            {
+                auto* op = new auto(ex::connect(std::move(snd), term_recv{0}));
+                start_wa = [op] { ex::start(*op); };
+            }
+        };
+        if (kind == "let_value") mk(ex::let_value(manual_sender<cval>{trg[0]}, f));
+        else
+            mk(ex::let_error(manual_sender<cval>{trg[0]}, f));
+    }
+    else if (kind == "schedule_from")
+    {
+        // trg[0]: the predecessor (manual leaf sending a counted value), trg[1]: the scheduler
+        trg.push_back(new trigger{0});
+        trg.push_back(new trigger{1});
+        // sthrow=1: storing the predecessor's value throws (finding C03x-1: schedule_from then terminates)
+        g_store_throws = c.geti("sthrow", 0) != 0;
+        auto snd = ex::schedule_from(manual_scheduler{trg[1]}, manual_sender<cval>{trg[0]});
+        using S = decltype(snd);
+        if (c.geti("life", 0) != 0)
+        {
+            install_segv_handler();
+            auto* h = new self_deleting_op<S>(std::move(snd), 0);
+            start_wa = [h] { ex::start(h->op); };
+        }
+        else
+        {
+            auto* op = new auto(ex::connect(std::move(snd), term_recv{0}));
+            start_wa = [op] { ex::start(*op); };
+        }
+    }
+    else if (kind == "when_all_vector")
     {
         int n = int(c.geti("n", 2));
         if (n < 0) n = 0;
@@ -581,7 +822,8 @@ static void run_one(case_t const& c)
         }
     }
 
-    bool wa = kind == "when_all" || kind == "when_all_vector";
+    bool const sf = kind == "schedule_from" || kind == "let_value" || kind == "let_error";
+    bool wa = kind == "when_all" || kind == "when_all_vector" || sf;
     bool const life_mode = !wa && c.geti("life", 0) != 0;
     bool const wa_life = wa && c.geti("life", 0) != 0;
     std::vector<std::function<void()>> bodies;
@@ -591,7 +833,14 @@ static void run_one(case_t const& c)
             for (auto const& op : c.threads[i])
             {
                 int ch = channel_of(op.name);
-                if (ch >= 0)
+                if (sf && (ch >= 0 || sched_channel_of(op.name) >= 0))
+                {
+                    // complete_<ch> 0 arg (predecessor) / sched_<ch> arg (scheduler)
+                    if (ch >= 0) do_complete_sf(trg[0], ch, op.args.size() > 1 ? op.args[1] : 0);
+                    else
+                        do_complete_sf(trg[1], sched_channel_of(op.name), op.args.size() > 0 ? op.args[0] : 0);
+                }
+                else if (ch >= 0)
                 {
                     // when_all: complete_<ch> idx arg;  shared-state kinds: complete_<ch> arg
                     long long idx = 0, arg = 0;
